@@ -22,7 +22,14 @@ pub fn proc_first_pool(seed: u64, check: &str, index: u64) -> usize {
 }
 
 pub fn gen_knobs(rng: &mut Rng) -> Knobs {
-   let site_mask = if rng.chance(500) { u64::MAX } else { rng.next_u64() | (1 << verif_rt::Site::DashContended as u64) };
+   // which yield-point kinds are armed in this run (the contended-spin point always is). The
+   // "lock held" points multiply the number of steps, so they are armed in about a third of the runs.
+   let held = (1u64 << verif_rt::Site::DashHeldShared as u64) | (1u64 << verif_rt::Site::DashHeldExclusive as u64);
+   let mut site_mask = if rng.chance(500) { u64::MAX } else { rng.next_u64() };
+   if rng.chance(650) {
+      site_mask &= !held;
+   }
+   site_mask |= 1 << verif_rt::Site::DashContended as u64;
    Knobs {
       global_threads: *rng.pick(&[1usize, 2, 2, 3, 4, 4, 8]),
       steal_permille: *rng.pick(&[0u32, 200, 500, 500, 900, 1000]),
@@ -69,6 +76,7 @@ pub fn base_case(check: &str, seed: u64, index: u64, rng: &mut Rng) -> Case {
       actors: vec![],
       sched: gen_sched(rng),
       max_steps: MAX_STEPS,
+      index_scenario: None,
       violation: None,
    }
 }
@@ -229,9 +237,18 @@ pub fn gen_case(check: &str, thorough: bool, seed: u64, index: u64) -> Option<Ca
    Some(match check {
       "C02" => gen_single_run("C02", "c02", seed, index, 0),
       "C05" => gen_single_run("C05", "c05", seed, index, 80),
+      "C10" => gen_single_run("C10", "c10", seed, index, 150),
       "C13" => gen_history(seed, index, thorough),
       "C20" => gen_tenants(seed, index, thorough),
       "C14" => return crate::gen14::gen_case(seed, index, thorough),
+      "C19" => {
+         let mut rng = Rng::new(case_seed(seed, "C19", index));
+         let mut case = base_case("C19", seed, index, &mut rng);
+         let sc = crate::c19::gen_scenario(&mut rng, thorough);
+         case.label = format!("{}/pool{}/construct{}", sc.ty, sc.pool, sc.construct_pool);
+         case.index_scenario = Some(sc);
+         case
+      },
       other => panic!("no generator for check {}", other),
    })
 }
